@@ -62,7 +62,7 @@ class N:
         self.copy = copy
 
     def __repr__(self):
-        ln = getattr(self.stmt, "lineno", "-")
+        ln = getattr(self.stmt, "_srcline", getattr(self.stmt, "lineno", "-"))
         return "<%d %s L%s%s>" % (self.id, self.label, ln, ("/" + self.copy) if self.copy else "")
 
 
@@ -290,7 +290,7 @@ class CFG:
     def fmt_path(self, path):
         out = []
         for n in path or []:
-            ln = getattr(n.stmt, "lineno", None)
+            ln = getattr(n.stmt, "_srcline", getattr(n.stmt, "lineno", None))
             out.append("%s%s" % (n.label, "@%s" % ln if ln else ""))
         return " -> ".join(out)
 
